@@ -1,6 +1,6 @@
 (** C15 — Moving averages are averages: affine-equivariant, range-preserving, linear. *)
 From Yata Require Import Base.Prelude Base.Num Base.NumR Core.Window Core.Candle Spec.Hist Spec.MethodDefs
-  Methods.Basic Core.Strings Indicators.Common Spec.IndicatorDefs Proofs.MethodsCommon Proofs.Averages Proofs.MAProofs Proofs.Averages2.
+  Methods.Basic Core.Strings Indicators.Common Spec.IndicatorDefs Proofs.MethodsCommon Proofs.Averages Proofs.MAProofs Proofs.Averages2 Proofs.Averages3 Proofs.Averages4 Proofs.Averages5.
 From Coq Require Import Reals.
 
 Section C15.
@@ -61,3 +61,16 @@ Theorem C15_hma_affine n n2 n3 a b (h : nat -> @F NumR) : (1 <= n)%nat -> (1 <= 
 Proof. exact (hma_affine n n2 n3 a b h). Qed.
 Theorem C15_lin_reg_affine n a b (h : nat -> @F NumR) : (1 <= n)%nat -> linreg_def n (fun i => a * h i + b)%R = (a * linreg_def n h + b)%R.
 Proof. exact (linreg_affine n a b h). Qed.
+
+(** the remaining three kinds, and with them ALL 15 kinds of the MA constructor *)
+Theorem C15_swma_affine n a b (h : nat -> @F NumR) : (1 <= n)%nat -> swma_def n (fun i => a * h i + b)%R = (a * swma_def n h + b)%R.
+Proof. exact (swma_affine n a b h). Qed.
+Theorem C15_median_affine {pw : PW} n a b (h : nat -> @F NumR) : (1 <= n)%nat -> median_def n (fun i => a * h i + b)%R = (a * median_def n h + b)%R.
+Proof. exact (median_affine n a b h). Qed.
+Theorem C15_vidya_affine n a b (x0 : @F NumR) rh :
+  vidya_rec n (a * x0 + b)%R (map (fun y => a * y + b)%R rh) = (a * vidya_rec n x0 rh + b)%R.
+Proof. exact (vidya_affine n a b x0 rh). Qed.
+Theorem C15_ma_constructor_affine_all {pw : PW} (c : ma_cfg) (a b v : @F NumR) xs x : ma_len_ok c ->
+  exists s0 s1, ma_init c v = Ok s0 /\ ma_init c (aff a b v) = Ok s1 /\
+    snd (ma_next (steps ma_next s1 (map (aff a b) xs)) (aff a b x)) = aff a b (snd (ma_next (steps ma_next s0 xs) x)).
+Proof. exact (ma_method_affine_all c a b v xs x). Qed.
